@@ -151,6 +151,31 @@ func runCheckOpts(opts *CheckOpts) int {
 		if only != "" && !strings.Contains(fc.Key, only) {
 			continue
 		}
+		if fc.MathLemma {
+			vc := newFnVC(prog, nil, fc)
+			func() {
+				defer func() {
+					if r := recover(); r != nil {
+						if ee, ok := r.(elabErr); ok {
+							vc.errorf("%s", string(ee))
+							return
+						}
+						panic(r)
+					}
+				}()
+				vc.TranslateLemma()
+			}()
+			rep := &fnReport{Name: vc.lemmaName(), fc: fc, vc: vc}
+			reports = append(reports, rep)
+			for _, e := range vc.errs {
+				engineErrs = append(engineErrs, rep.Name+": "+e)
+			}
+			for _, o := range vc.obligs {
+				o.Inputs = vc.inputs
+				obligs = append(obligs, o)
+			}
+			continue
+		}
 		fn := prog.findFunc(fc)
 		rep := &fnReport{Name: fc.Pkg + "#" + fc.Key, fc: fc}
 		reports = append(reports, rep)
@@ -248,6 +273,10 @@ func runCheckOpts(opts *CheckOpts) int {
 	backends := map[string]int{}
 	var samples []map[string]interface{}
 	replayDir := filepath.Join(verifDir(), "replays", id)
+	replays, maxReplays := 0, 3
+	if opts.NoEvidence {
+		maxReplays = 1
+	}
 	for i, o := range obligs {
 		r := results[i]
 		solverTime += r.TimeS
@@ -301,7 +330,10 @@ func runCheckOpts(opts *CheckOpts) int {
 				"model": r.Model,
 			}
 			suffix := " no-failing-input-found"
-			if len(r.Model) > 0 {
+			if len(r.Model) > 0 && replays >= maxReplays {
+				rf["replay"] = map[string]interface{}{"status": fmt.Sprintf("not attempted: replay budget of %d per run used up", maxReplays)}
+			} else if len(r.Model) > 0 && !o.noReplay {
+				replays++
 				confirmed, detail := replayModel(prog, o, r, rp)
 				rf["replay"] = detail
 				if confirmed {
@@ -323,7 +355,7 @@ func runCheckOpts(opts *CheckOpts) int {
 			fuc = append(fuc, rep.Name)
 			hasPost := false
 			for _, o := range rep.vc.obligs {
-				if o.Kind == "post" || o.Kind == "bounds" || o.Kind == "nowrap" {
+				if o.Kind == "post" || o.Kind == "bounds" || o.Kind == "nowrap" || o.Kind == "lemma" {
 					hasPost = true
 				}
 			}
